@@ -1,5 +1,6 @@
 """C03 -- no input makes any parsing entry point panic, hang or block."""
 import json
+import re
 import os
 
 from ..core import AnalysisError, term_s, subterms
@@ -11,7 +12,7 @@ from ..tables import enum_const_table
 from . import conn
 from .conn import leaves, ret_kind, self_field
 from .fields import is_derive
-from .util import const_of, is_call, last_seg, look, norm, truth, option_is_some
+from .util import const_of, is_call, last_seg, look, norm, truth, option_is_some, is_new_fn, has_callers, known_callers, reaches_via_new, block_reaches
 
 EXPLANATION = (
     "Static proof obligations for every panic-capable construct of the crate, enumerated from MIR "
@@ -69,6 +70,12 @@ TOTAL = {
     "std::vec::Vec::<T, A>::extend_from_slice": "allocation only",
     "std::vec::Vec::<T, A>::push": "allocation only",
     "std::vec::Vec::<T>::new": "constructor",
+    "std::vec::Vec::<T>::with_capacity": "allocation only (capacity overflow is an allocation failure)",
+    "std::mem::take": "total (Default::default of a std collection)",
+    "std::mem::replace": "total",
+    "std::mem::swap": "total",
+    "std::mem::drop": "total apart from the value's Drop",
+    "core::slice::<impl [T]>::fill": "total",
     "vmm_sys_util::epoll::Epoll::new": "syscall wrapper returning Result",
     "vmm_sys_util::epoll::Epoll::wait": "syscall wrapper returning Result",
     "vmm_sys_util::epoll::EpollEvent::new": "constructor",
@@ -78,8 +85,8 @@ TOTAL = {
 
 # unwraps justified by the environment (pairing rules of C09), not by the code: outside C03's scope
 ENVIRONMENT = {
-    ("server::HttpServer::requests", "get_mut"): "epoll reports only registered descriptors and every registered connection is in the map (C09 R09.3)",
-    ("server::HttpServer::requests::{closure#3}", "epoll_del"): "every entry of the map was registered with epoll_add (C09 R09.3)",
+    ("server::HttpServer::", "get_mut"): "epoll reports only registered descriptors and every registered connection is in the map (C09 R09.3)",
+    ("server::HttpServer::", "epoll_del"): "every entry of the map was registered with epoll_add (C09 R09.3)",
 }
 # sites whose obligation is an invariant across calls: discharged by R03.6, never assumed
 ASSUMED = {
@@ -149,7 +156,7 @@ def typestate(ctx):
     facts = ctx.facts
     all_ok = True
     n = 0
-    methods = [f for f in facts.fns.values() if f.name.startswith(conn.P) and f.d["kind"] != "closure"]
+    methods = _standalone_methods(facts)
     for fn in methods:
         if fn.nargs < 1:
             continue
@@ -268,8 +275,8 @@ def body_invariant(ctx):
     sd = facts.variant_discr("connection::ConnectionState")
     all_states = set(sd.values())
     methods = []
-    for f in facts.fns.values():
-        if f.name.startswith(conn.P) and f.d["kind"] != "closure" and f.nargs >= 1:
+    for f in _standalone_methods(facts):
+        if f.nargs >= 1:
             ty = f.locals[1]["ty"]
             if ty.get("k") == "ref" and ty.get("mut") and (ty["inner"].get("path") == conn.HC):
                 methods.append(f)
@@ -368,7 +375,14 @@ def body_invariant(ctx):
                                     tr.L = tr.L - n
                                 else:
                                     why = "unsupported drain range on body_vec"
-                            elif seg in ("push", "append", "insert", "truncate", "resize", "retain", "split_off", "swap_remove", "remove", "pop"):
+                            elif seg == "truncate" and const_of(args[1]) == 0:
+                                tr.L = Lin.const(0)
+                            elif seg == "truncate":
+                                # shortens to at most n: the new length is some value between 0 and the old one
+                                newl = tr.atom(("ghost", "len(body_vec) after truncate@%d" % e[1]), 0, 2**40)
+                                st.add_le(newl - tr.L)
+                                tr.L = newl
+                            elif seg in ("push", "append", "insert", "resize", "retain", "split_off", "swap_remove", "remove", "pop"):
                                 why = "body_vec is modified by %s, which the invariant proof does not model" % seg
                         elif path in facts.fns and path.startswith(conn.P) and args and look(args[0]) == ("arg", 1) and _takes_mut_self(facts, path):
                             # the callee keeps the invariant (proved for it separately); what we knew is gone
@@ -412,6 +426,18 @@ def body_invariant(ctx):
     return all_ok and okc and new_ok and n_drains >= 1
 
 
+def _standalone_methods(facts):
+    """Non-closure functions of the HttpConnection impl that are analysed on their own: a helper that is not
+    in the frozen list and has callers is traversed inline at each of its call sites instead."""
+    out = []
+    for f in facts.fns.values():
+        if f.name.startswith(conn.P) and f.d["kind"] != "closure":
+            if is_new_fn(f.name) and has_callers(facts, f.name):
+                continue
+            out.append(f)
+    return out
+
+
 def _takes_mut_self(facts, path):
     fn = facts.fns[path]
     if fn.nargs < 1:
@@ -444,6 +470,9 @@ def panics(ctx, typestate_ok, body_inv_ok=False):
     for fn in facts.fns.values():
         if is_derive(fn):
             continue
+        if fn.d["kind"] != "closure" and is_new_fn(fn.name) and has_callers(facts, fn.name):
+            ctx.touched(fn)
+            continue    # traversed inline at its call sites
         nfn += 1
         ctx.touched(fn)
         pa.analyse_fn(fn)
@@ -460,12 +489,12 @@ def panics(ctx, typestate_ok, body_inv_ok=False):
             ctx.ob("R03.2", "site|" + full_key, True, "proved on %d path(s): %s %s" % (npaths, s.desc, ("[" + why + "]") if why else ""), s.loc)
             continue
         # typestate-discharged unwrap
-        if s.kind == "call" and s.key.startswith("unwrap|") and s.fn == loopfn and "pending_request" in s.key and "take" in s.key:
-            good = typestate_ok and unwrap_under_request_ready(ctx, loopfn)
+        if s.kind == "call" and s.key.startswith("unwrap|") and s.fn.startswith(conn.P) and "pending_request" in s.key and "take" in s.key:
+            good = typestate_ok and unwrap_under_request_ready(ctx)
             n_ok += 1 if good else 0
             ctx.ob("R03.2", "site|" + full_key, good, "unwrap of pending_request.take(): discharged by the typestate invariant (R03.4) with state == RequestReady observed on the path", s.loc)
             continue
-        env = [r for (f, what), r in ENVIRONMENT.items() if f == s.fn and what in s.key]
+        env = [r for (f, what), r in ENVIRONMENT.items() if s.fn.startswith(f) and re.match(r"unwrap\|unwrap\((server::HttpServer|std::collections::HashMap::<[^()]*>)::%s\(" % what, s.key)]
         if env and s.kind == "call" and s.key.startswith("unwrap|"):
             n_env += 1
             ctx.ob("R03.2", "site|" + full_key, True, "environment-justified (outside the parsing entry points; see C09): %s" % env[0], s.loc)
@@ -518,11 +547,15 @@ def assert_macros(ctx):
     ctx.ob("R03.2", "no-assert-macros|scanned", True, "%d assert!/panic! macro sites in non-test code" % n)
 
 
-def unwrap_under_request_ready(ctx, loopfn):
-    fn, lv = leaves(ctx, loopfn)
+def unwrap_under_request_ready(ctx):
+    """Every unwrap of pending_request.take() -- in whichever method (or helper traversed inline) it sits --
+    is preceded on its path by the observation state == RequestReady."""
     d = {n: k for k, n in ctx.facts.variant_discr("connection::ConnectionState").items()}
     found = 0
-    for lf in lv:
+    lvs = []
+    for f in _standalone_methods(ctx.facts):
+        lvs.extend(leaves(ctx, f.name)[1])
+    for lf in lvs:
         for i, e in enumerate(lf.events):
             if e[0] == "call" and last_seg(e[3]) == "unwrap" and any(is_call(s, "take") for s in subterms(e[4]) if isinstance(s, tuple)):
                 found += 1
@@ -638,7 +671,7 @@ def loops(ctx):
                 work.extend(kind[2])  # cycles nested inside, to be classified on their own
             key = "%s|cycle@%s" % (fn.name, kind[0])
             if kind[0] == "parser-loop":
-                ok = fn.name == loopfn and ranking(ctx, fn)
+                ok = ranking(ctx, facts.fn(loopfn))
                 ctx.ob("R03.3", key, ok, "%s: the parser loop terminates by the ranking (end - line_start, state order)" % fn.name.split("::")[-1], fn.loc(cyc[0]))
             elif kind[0] in ("iterator", "queue-drain"):
                 ctx.ob("R03.3", key + "|" + kind[1], True, "%s: cycle driven by %s" % (fn.name.split("::")[-1], kind[1]), fn.loc(cyc[0]))
@@ -665,7 +698,9 @@ def classify_cycle(ctx, fn, cyc):
                 drivers.append(("queue-drain", last_seg(p), b))
             elif p == conn.P + "pop_parsed_request":
                 drivers.append(("queue-drain", "pop_parsed_request", b))
-    if fn.name == conn.parse_loop_fn(ctx) and any(fn.blocks[b]["term"]["k"] == "call" and fn.blocks[b]["term"]["callee"].get("path") == conn.PARSE_RL for b in cyc):
+    loopfn = conn.parse_loop_fn(ctx)
+    in_loop_fn = fn.name == loopfn or (is_new_fn(fn.name) and reaches_via_new(ctx.facts, ctx.facts.fn(loopfn), fn.name))
+    if in_loop_fn and any(block_reaches(ctx.facts, fn, b, conn.PARSE_RL) for b in cyc):
         return ("parser-loop", "")
     if fn.name == "server::HttpServer::flush_outgoing_writes":
         inner = [b for b in cyc if fn.blocks[b]["term"]["k"] == "call" and (fn.blocks[b]["term"]["callee"].get("path") or "").endswith("ClientConnection::<T>::write")]
